@@ -10,3 +10,7 @@
 ;@onstore github.com/cosmos/iavl.FastIterator.err ghostflag parked
 ;@onstore github.com/cosmos/iavl.UnsavedFastIterator.err ghostflag parked
 ;@onstore github.com/cosmos/iavl.NodeIterator.err ghostflag parked
+; held[m]: the current goroutine holds mutex m (write lock); rheld[m]: it holds a read lock.
+; Unlocking a mutex that is not held is a fatal runtime error, not an error result.
+;@ghost held (Array Int Bool)
+;@ghost rheld (Array Int Bool)
